@@ -182,7 +182,7 @@ func configStream(seed uint64, n int) {
 	specs := append(append([]string{}, memSpecs...), "Linear8K", "linear64k", "")
 	asms := []string{"", "acme", "64tass", "ca65", "ACME", "nasm"}
 	ports := []string{"stdout:16", "stdout:1", "stdout:4", "stdout:bin", "printer:petscii", "stdout:255", "stdout:256", "stdout:259", "stdout:300", "stdout:0", "printer:ascii", "stdout:", "stdout:1x", "stdin:4",
-		"printer:", " stdout:16", "stdout:16 ", "stdout:00008", "STDOUT:16", "printer:petscii2", "stdout:bin2"}
+		"printer:", " stdout:16", "stdout:16 ", "stdout:00008", "STDOUT:16", "printer:petscii2", "stdout:bin2", "", " ", "\t"}
 	// the acceptance grid
 	for _, m := range models {
 		for _, s := range specs {
@@ -213,7 +213,12 @@ func configStream(seed uint64, n int) {
 			io[off] = p
 		}
 		flags := []uint8{0, 1, 4, 5, 2, 8, 7}[r.Intn(7)]
-		emit(configCase(m, s, asms[r.Intn(4)], uint8([]int{0x2D, 0x10, 0x7F, 0x00, 0xFF, 0x02}[r.Intn(6)]), io, flags, 0x0200))
+		// the register block of the coprocessor starts at the configured address, wherever in its page that is
+		base := uint16(0x0200)
+		if r.Chance(40) {
+			base = []uint16{0x0280, 0x02E8, 0x0340, 0x03A8}[r.Intn(4)]
+		}
+		emit(configCase(m, s, asms[r.Intn(4)], uint8([]int{0x2D, 0x10, 0x7F, 0x00, 0xFF, 0x02}[r.Intn(6)]), io, flags, base))
 		count("config.random")
 	}
 }
